@@ -22,7 +22,9 @@ VERIF = Path(__file__).resolve().parent.parent
 REPO = Path(os.environ.get("VERIF_REPO", "/repo"))
 WORK = VERIF / ".work"
 SPEC = VERIF / "spec"
-EVIDENCE = VERIF / "evidence"
+# evidence is only ever written for /repo itself; runs against a scratch worktree (tools/mutant_test.sh, VERIF_REPO set)
+# write theirs under .work so that a mutant run can never replace a committed evidence file
+EVIDENCE = VERIF / "evidence" if str(REPO) == "/repo" else WORK / "evidence-scratch"
 REPLAYS = VERIF / "replays"
 KNOWN = VERIF / "known_findings.json"
 TLA_JAR = "/opt/veriftools/tla/tla2tools.jar:/opt/veriftools/tla/CommunityModules-deps.jar"
@@ -326,7 +328,7 @@ class Verdict:
             "wall_s": round(time.time() - self.t0, 2),
             "violations": len(self.violations),
         }
-        EVIDENCE.mkdir(exist_ok=True)
+        EVIDENCE.mkdir(parents=True, exist_ok=True)
         (EVIDENCE / f"{self.prop}.json").write_text(json.dumps(ev, indent=1, default=str) + "\n")
         for fid, (f, n) in sorted(self.known_hits.items()):
             print(f"KNOWN-FINDING: property={self.prop} {fid}: {f['what']} [{n} case(s)]")
